@@ -432,7 +432,7 @@ impl Val for String {
                 _ => STR_HOSTILE[rng.below(STR_HOSTILE.len())].to_string(),
             },
             Kind::Long => {
-                let n = rng.range(0, 40 * dom.max_len().min(40));
+                let n = if dom.depth == 0 && rng.chance(1, 24) { rng.range(4000, 70_000) } else { rng.range(0, 40 * dom.max_len().min(40)) };
                 let piece = STR_HOSTILE[1 + rng.below(STR_HOSTILE.len() - 1)];
                 let mut s = String::new();
                 while s.len() < n {
@@ -503,6 +503,9 @@ impl<T: Val> Val for Vec<T> {
             1 => max.min(1),
             _ => rng.range(0, max),
         };
+        // rarely, a top-level container well beyond 255 elements (u8-sized length fields, small
+        // fixed buffers and the like only show up there)
+        let n = if dom.kind == Kind::Long && dom.depth == 0 && rng.chance(1, 24) { rng.range(256, 700) } else { n };
         T::gen_run(rng, dom.deeper(), n)
     }
     fn scale(&self, k: usize) -> Self {
